@@ -170,6 +170,15 @@ def xmd_rows(ctx: Ctx):
             rows.append({"op": "xmd", "H": {"kind": "graph", "b": b, "s": s, "g": R.g, "name": name},
                          "msg": list(m), "dst": list(d), "len": ln, "raised": raised,
                          "r": list(out) if out is not None else []})
+    # a message beyond 64 KiB (twice: whatever is kept between calls must not matter)
+    for rep in range(2):
+        fn = fns[0][1]
+        R = recording_hash(fn)
+        R.g = []
+        m, d = rng.randbytes(66000 + rep), b"QUUX-V01-CS02-long"
+        raised, out = _call(lambda: H.expand_message_xmd(m, d, 48, R))
+        rows.append({"op": "xmd", "H": {"kind": "graph", "b": fn().digest_size, "s": fn().block_size, "g": R.g, "name": fns[0][0]},
+                     "msg": list(m), "dst": list(d), "len": 48, "raised": raised, "r": list(out) if out is not None else []})
     # one interpreter, different hashes with equal block size back to back (state kept between calls)
     for (n1, f1), (n2, f2) in ((fns[1], fns[2]), (fns[0], fns[7]), (fns[2], fns[4])):
         for fn, name in ((f1, n1), (f2, n2), (f1, n1)):
